@@ -330,7 +330,7 @@ def build_design(seed, index, flags, work, race=False, tags=None, path_prefix=No
     args = ["go", "build"] + (["-race"] if race else []) + (["-tags", tags] if tags else []) + ["-o", os.path.join(wd, "e2e"), "./cmd/e2e"]
     p = subprocess.run(args, cwd=os.path.join(wd, "out"), capture_output=True, text=True, env=goenv())
     if p.returncode != 0:
-        b.error = "build: " + (p.stdout + p.stderr)[-800:]
+        b.error = "build: " + (p.stdout + p.stderr)[-6000:]
         return b
     b.binary = os.path.join(wd, "e2e")
     return b
